@@ -1,2 +1,3 @@
 import MtailVerif.Props.C08
 import MtailVerif.Props.C15
+import MtailVerif.Props.C09
